@@ -50,13 +50,14 @@ enum Op : int {
   kSubscribeInherit,  // SharedFutureOn::Subscribe(f)
   kWhenAllOwn,  // WhenAll<None>(std::move(own copy), other ready shared future): consumes the observer's copy, always last
   kWhenAnyOwn,  // WhenAny(std::move(own copy), own copy's duplicate): consumes the observer's copy, always last
+  kTouchMove,   // if Ready(): std::move(own).Touch() (moves the value out only if provably last); always last
   kGetMove,     // consumes the observer's copy: always last
   kDropCopy,    // destroys the observer's copy: always last
   kOpCount
 };
 const char* kOpNames[] = {"ThenInline", "Then(e)", "SubscribeInline", "Subscribe(e)", "Share().Get", "Share(e).ThenInline", "Connect(unique promise)",
                           "Connect(shared promise)", "Wait+Touch", "Get const&", "Ready()+Touch", "copy, use the copy, destroy it", "WhenAll(copy, copy)",
-                          "WhenAny(copy, copy)", "co_await copy", "co_await Await(copy)", "SharedFutureOn::Then(f)", "SharedFutureOn::Subscribe(f)", "WhenAll(move(own), other)", "WhenAny(move(own), copy)", "Get&&", "drop own copy"};
+                          "WhenAny(copy, copy)", "co_await copy", "co_await Await(copy)", "SharedFutureOn::Then(f)", "SharedFutureOn::Subscribe(f)", "WhenAll(move(own), other)", "WhenAny(move(own), copy)", "Ready() then Touch&&", "Get&&", "drop own copy"};
 enum Producer : int { kSetValue, kSetError, kSetException, kDropPromise, kProducerCount };
 const char* kProducerNames[] = {"Set(value)", "Set(error)", "Set(exception)", "drop promise"};
 
@@ -72,7 +73,9 @@ struct Attached {
   int observer;
   int op;
   int calls = 0;
+  int flavour = 0;  // callback parameter: 0 const Result&, 1 const T& (runs only on success), 2 T by value (a copy per observer)
 };
+const char* kFlavourNames[] = {"", " [f(const T&)]", " [f(T)]"};
 
 class Case final : public sim::CaseBase {
  public:
@@ -94,11 +97,12 @@ class Case final : public sim::CaseBase {
       const std::uint32_t n = 1 + g.Draw(max_ops);
       for (std::uint32_t k = 0; k < n; ++k) {
         int op = static_cast<int>(g.Draw(kOpCount));
-        const bool consumes = op == kGetMove || op == kDropCopy || op == kWhenAllOwn || op == kWhenAnyOwn;
+        const bool consumes = op == kGetMove || op == kDropCopy || op == kWhenAllOwn || op == kWhenAnyOwn || op == kTouchMove;
         if (by_reference && consumes) {
           op = kGetConst;
         }
-        ops.push_back(op);
+        const bool attaches = op == kThenInline || op == kThenExec || op == kSubscribeInline || op == kSubscribeExec || op == kThenInherit || op == kSubscribeInherit;
+        ops.push_back(op + 100 * (attaches ? static_cast<int>(g.Draw(3)) : 0));
         if (!by_reference && consumes) {
           break;
         }
@@ -116,8 +120,8 @@ class Case final : public sim::CaseBase {
     j.Key("observers").Arr();
     for (std::size_t o = 0; o < programs.size(); ++o) {
       j.Obj().KV("delay", delays[o]).Key("ops").Arr();
-      for (int op : programs[o]) {
-        j.Str(kOpNames[op]);
+      for (int code : programs[o]) {
+        j.Str(std::string(kOpNames[code % 100]) + kFlavourNames[code / 100]);
       }
       j.EndArr().End();
     }
@@ -142,9 +146,34 @@ class Case final : public sim::CaseBase {
     }
   }
 
-  std::size_t NewAttached(int observer, int op) {
-    attached.push_back(Attached{observer, op, 0});
+  std::size_t NewAttached(int observer, int op, int flavour = 0) {
+    attached.push_back(Attached{observer, op, 0, flavour});
     return attached.size() - 1;
+  }
+
+  // hands fn a callback of the generated parameter flavour
+  template <typename Fn>
+  void WithCallback(int observer, int op, int flavour, Fn&& fn) {
+    const std::size_t slot = NewAttached(observer, op, flavour);
+    if (flavour == 1) {
+      fn([this, observer, op, slot, cap = T{4242}](const T& v) {
+        (void)cap.Read("callback capture");
+        ++attached[slot].calls;
+        Saw(observer, op, Outcome{OKind::Value, v.Read("value passed to a shared future's callback by const&")});
+      });
+    } else if (flavour == 2) {
+      fn([this, observer, op, slot, cap = T{4242}](T v) {
+        (void)cap.Read("callback capture");
+        ++attached[slot].calls;
+        Saw(observer, op, Outcome{OKind::Value, v.Read("value passed to a shared future's callback by value")});
+      });
+    } else {
+      fn([this, observer, op, slot, cap = T{4242}](const yaclib::Result<T, E>& r) {
+        (void)cap.Read("callback capture");
+        ++attached[slot].calls;
+        Saw(observer, op, sim::Observe(r, kOpNames[op]));
+      });
+    }
   }
 
   auto Callback(int observer, int op) {
@@ -185,21 +214,31 @@ class Case final : public sim::CaseBase {
       sim::Yield();
     }
     const SF& c = own != nullptr ? *own : base;
-    for (int op : programs[static_cast<std::size_t>(o)]) {
+    for (int code : programs[static_cast<std::size_t>(o)]) {
+      const int op = code % 100;
+      const int fl = code / 100;
       switch (op) {
         case kThenInline: {
-          auto f = c.ThenInline(Callback(o, op));
-          (void)std::move(f).Get();
+          WithCallback(o, op, fl, [&](auto cb) {
+            auto f = c.ThenInline(std::move(cb));
+            (void)std::move(f).Get();
+          });
         } break;
         case kThenExec: {
-          auto f = c.Then(*proxy, Callback(o, op));
-          (void)std::move(f).Get();
+          WithCallback(o, op, fl, [&](auto cb) {
+            auto f = c.Then(*proxy, std::move(cb));
+            (void)std::move(f).Get();
+          });
         } break;
         case kSubscribeInline:
-          c.SubscribeInline(Callback(o, op));
+          WithCallback(o, op, fl, [&](auto cb) {
+            c.SubscribeInline(std::move(cb));
+          });
           break;
         case kSubscribeExec:
-          c.Subscribe(*proxy, Callback(o, op));
+          WithCallback(o, op, fl, [&](auto cb) {
+            c.Subscribe(*proxy, std::move(cb));
+          });
           break;
         case kShareGet: {
           auto f = yaclib::Share(c);
@@ -271,18 +310,26 @@ class Case final : public sim::CaseBase {
         case kThenInherit: {
           if (on_handle != nullptr) {
             SIM_PROBE("shared_future_on_then");
-            auto f = on_handle->Then(Callback(o, kThenExec));
-            (void)std::move(f).Get();
+            WithCallback(o, kThenExec, fl, [&](auto cb) {
+              auto f = on_handle->Then(std::move(cb));
+              (void)std::move(f).Get();
+            });
           } else {
-            auto f = c.Then(*proxy, Callback(o, kThenExec));
-            (void)std::move(f).Get();
+            WithCallback(o, kThenExec, fl, [&](auto cb) {
+              auto f = c.Then(*proxy, std::move(cb));
+              (void)std::move(f).Get();
+            });
           }
         } break;
         case kSubscribeInherit:
           if (on_handle != nullptr) {
-            on_handle->Subscribe(Callback(o, kSubscribeExec));
+            WithCallback(o, kSubscribeExec, fl, [&](auto cb) {
+              on_handle->Subscribe(std::move(cb));
+            });
           } else {
-            c.Subscribe(*proxy, Callback(o, kSubscribeExec));
+            WithCallback(o, kSubscribeExec, fl, [&](auto cb) {
+              c.Subscribe(*proxy, std::move(cb));
+            });
           }
           break;
         case kWhenAllOwn: {
@@ -305,6 +352,13 @@ class Case final : public sim::CaseBase {
             auto f = yaclib::WhenAny(std::move(*own), std::move(dup));
             *own = SF{};
             Saw(o, op, sim::Observe(std::move(f).Get(), "WhenAny(move(own), copy)"));
+          }
+        } break;
+        case kTouchMove: {
+          if (own != nullptr && own->Ready()) {
+            SIM_PROBE("touch_rvalue");
+            Saw(o, op, sim::Observe(std::move(*own).Touch(), "Touch&&"));
+            *own = SF{};
           }
         } break;
         case kGetMove: {
@@ -458,15 +512,24 @@ class Case final : public sim::CaseBase {
       }
     }
     for (auto& a : attached) {
+      if (a.flavour != 0 && model.kind != OKind::Value) {
+        // a value-taking callback is skipped when the shared result is a failure
+        if (a.calls != 0) {
+          sim::Fail("CALLBACK_INVOKED_WRONGLY", "observer %d: value-taking callback attached with %s ran although the result is %s", a.observer, kOpNames[a.op],
+                    model.Str().c_str());
+          return;
+        }
+        continue;
+      }
       if (a.calls != 1) {
         sim::Fail(a.calls == 0 ? "LOST" : "DUPLICATE", "observer %d: callback attached with %s fired %d times", a.observer, kOpNames[a.op], a.calls);
         return;
       }
     }
     for (auto& prog : programs) {
-      for (int op : prog) {
-        char name[64];
-        std::snprintf(name, sizeof name, "cell_op_%s", kOpNames[op]);
+      for (int code : prog) {
+        char name[96];
+        std::snprintf(name, sizeof name, "cell_op_%s%s", kOpNames[code % 100], kFlavourNames[code / 100]);
         sim::CountDyn(name);
       }
     }
@@ -490,5 +553,5 @@ class Case final : public sim::CaseBase {
 }  // namespace
 
 SIM_HARNESS("C06", "c06_shared", Case,
-            "WRONG_RESULT EARLY LOST DUPLICATE COROUTINE_FAILED MOVED_FROM_READ TORN WRONG_EXECUTOR STALE_PAYLOAD WAIT_NOT_READY LEAK LEAK_OBJECT DOUBLE_DESTROY USE_AFTER_DESTROY "
+            "WRONG_RESULT EARLY LOST DUPLICATE CALLBACK_INVOKED_WRONGLY COROUTINE_FAILED MOVED_FROM_READ TORN WRONG_EXECUTOR STALE_PAYLOAD WAIT_NOT_READY LEAK LEAK_OBJECT DOUBLE_DESTROY USE_AFTER_DESTROY "
             "JOB_LOST EXECUTOR_REF_LEAK DEADLOCK NO_PROGRESS CRASH:*")
